@@ -76,6 +76,13 @@ def cq(x) -> str:
 # running the implementation with a wall-clock guard
 
 
+def _safe_repr(v, limit=200000):
+    try:
+        return repr(v)[:limit]
+    except RecursionError:
+        return f"<{type(v).__name__}: too deeply nested to print>"
+
+
 class Hang(Exception):
     pass
 
@@ -420,6 +427,17 @@ class Ctx:
         seen = set()
         for v in real + noinp:
             payload = {"property": self.pid, "seed": self.seed, "tier": self.tier, "what": v["what"], **v["replay"]}
+            try:
+                json.dumps(payload, indent=1, default=str)
+            except (RecursionError, ValueError, TypeError):  # e.g. a replay holding a 20 000-term nested expression
+                flat = {}
+                for k_, v_ in payload.items():
+                    try:
+                        json.dumps(v_, indent=1, default=str)
+                        flat[k_] = v_
+                    except (RecursionError, ValueError, TypeError):
+                        flat[k_] = "<not serialisable as JSON; repr:> " + _safe_repr(v_)
+                payload = flat
             h = hashlib.sha256(json.dumps(payload, sort_keys=True, default=str).encode()).hexdigest()[:12]
             if h in seen:
                 continue
@@ -466,7 +484,19 @@ class Ctx:
         }
         evdir = Path(os.environ.get("VERIF_EVIDENCE_DIR", str(VERIF / "evidence")))  # redirected for runs against seeded trees
         evdir.mkdir(parents=True, exist_ok=True)
-        (evdir / f"{self.pid}.json").write_text(json.dumps(ev, indent=1, default=str) + "\n")
+        try:
+            ev_text = json.dumps(ev, indent=1, default=str)
+        except (RecursionError, ValueError, TypeError):  # a sample / violation record too deeply nested for the encoder
+            def _flat(o, depth=0):
+                if depth > 40:
+                    return "<nested deeper than 40 levels; repr:> " + _safe_repr(o, 2000)
+                if isinstance(o, dict):
+                    return {str(k): _flat(v, depth + 1) for k, v in o.items()}
+                if isinstance(o, (list, tuple)):
+                    return [_flat(v, depth + 1) for v in o]
+                return o
+            ev_text = json.dumps(_flat(ev), indent=1, default=str)
+        (evdir / f"{self.pid}.json").write_text(ev_text + "\n")
         if rc == 0 or not os.environ.get("VERIF_KEEP_CASES"):
             # the generated case files are kept only on request (they can be hundreds of MB per failing run);
             # a replay file carries everything needed to regenerate them
@@ -517,6 +547,11 @@ def main(argv=None):
     import argparse
     import importlib
 
+    if os.environ.get("VERIF_STACKDUMP"):  # development aid: `kill -USR1 <pid>` prints the Python stack of a running check
+        import faulthandler
+
+        faulthandler.register(signal.SIGUSR1, all_threads=True)
+
     ap = argparse.ArgumentParser()
     ap.add_argument("pid")
     ap.add_argument("--tier", default=os.environ.get("VERIF_TIER", "quick"), choices=["quick", "thorough"])
@@ -543,7 +578,18 @@ def main(argv=None):
         import traceback
 
         traceback.print_exc()
-        ctx.internal_errors.append(f"harness exception: {type(e).__name__}: {e}")
+        changed = sorted(k for k, v in ctx.drift.items() if str(v).startswith("changed"))
+        if ctx.drifted and changed:
+            # the anchored source differs from the pinned hashes and the correspondence harness could not be run to the end against it
+            # (e.g. a private helper it records through was removed or renamed): the property is no longer shown to hold on this tree.
+            # Violations with a concrete input found before the exception are still reported first (finish()).
+            tb = traceback.extract_tb(e.__traceback__)
+            where = f"{Path(tb[-1].filename).name}:{tb[-1].lineno}" if tb else "?"
+            ctx.broken.append({"kind": "correspondence",
+                               "what": f"the correspondence harness stopped with {type(e).__name__}: {str(e)[:300]} (at {where}) on a tree whose anchored "
+                                       f"files changed: {changed[:6]}; the obligations it had not reached are unchecked"})
+        else:
+            ctx.internal_errors.append(f"harness exception: {type(e).__name__}: {e}")
     return ctx.finish()
 
 
